@@ -107,6 +107,22 @@ def replay(obligation, extra):
                 return dict(found=True, input='%s%s' % (name, '' if auto_pong else ' (auto_pong off)'),
                             expected='one ProtocolError, nothing of the frame delivered, non-graceful Disconnected',
                             observed=err, events=[harness.ev_summary(e) for e in run.events][-4:])
+    # histories: an EARLIER connection in this process negotiated permessage-deflate and received legal RSV1 / long frames;
+    # a later connection WITHOUT the extension gets the same header bytes - validity is per connection
+    import zlib
+    c = zlib.compressobj(-1, zlib.DEFLATED, -15)
+    z = (c.compress(b'hello hello hello') + c.flush(zlib.Z_SYNC_FLUSH))[:-4]
+    for op in (1, 2):
+        tried += 1
+        legal = ref.server_frame(op, z, rsv1=1)
+        harness.drive(stream=legal + ref.server_frame(op, b'plain'), response_extra=b'Sec-WebSocket-Extensions: permessage-deflate\r\n',
+                      ws_kwargs=dict(compress=True), connect_kwargs=dict(ping_rate=0))
+        name = 'rsv1 without extension, after an earlier connection of this process had negotiated permessage-deflate and received the same header'
+        run = harness.drive(stream=ref.server_frame(1, b'one') + ref.server_frame(op, b'x' * len(z), rsv1=1) + ref.server_frame(1, b'after'), connect_kwargs=dict(ping_rate=0))
+        err = judge(name, run, 1)
+        if err:
+            return dict(found=True, input=name, expected='one ProtocolError, nothing of the frame delivered, non-graceful Disconnected',
+                        observed=err, events=[harness.ev_summary(e) for e in run.events][-4:])
     # reserved close code arriving while the client is already closing (it called close() first, or it
     # already echoed a first server Close)
     for code in (999, 1005, 1006, 1015, 2999):
